@@ -57,7 +57,60 @@ pub fn c20_bincode_set<const N: usize, const M: usize>() {
     same_u8_set(&s, &md);
 }
 
+/// a second, independent Deserializer (serde's own `value::MapDeserializer` / `SeqDeserializer`, no bincode), used for
+/// both entry points of the trait: `deserialize` and `deserialize_in_place` (which must REPLACE whatever the place held)
+pub fn c20_value_de<const N: usize, const M: usize>() {
+    use serde::de::value::{Error as VErr, MapDeserializer, SeqDeserializer};
+    use serde::Deserialize;
+    let (m, md) = any_u8_map::<N>();
+    vf::assume(md.n <= M);
+    let mut pairs = [(0u8, 0u8); N];
+    let mut i = 0;
+    for (k, v) in m.iter() { if i < N { pairs[i] = (*k, *v); } i += 1; }
+    let n = md.n;
+    let mut md2 = Model::<M>::new();
+    let mut i = 0;
+    while i < N { if i < n { md2.insert(md.keys[i], md.vals[i], 0, 0); } i += 1; }
+    let in_place = vf::any_bool();
+    if in_place {
+        vf::reach(1);
+        // the place already holds arbitrary entries
+        let (mut place, _pm) = any_u8_map::<M>();
+        let de = MapDeserializer::<_, VErr>::new(pairs[..n].iter().copied());
+        let r = Map::<u8, u8, M>::deserialize_in_place(de, &mut place);
+        vf::check(r.is_ok(), 2004);
+        vf::check(place == m && m == place, 2003);
+        same_u8_map(&place, &md2);
+    } else {
+        vf::reach(2);
+        let de = MapDeserializer::<_, VErr>::new(pairs[..n].iter().copied());
+        match Map::<u8, u8, M>::deserialize(de) { Ok(d) => { vf::check(d == m, 2003); same_u8_map(&d, &md2); } Err(_) => vf::check(false, 2004) }
+    }
+    // sets through SeqDeserializer
+    let (s, sd) = any_u8_set::<N>();
+    vf::assume(sd.n <= M);
+    let mut items = [0u8; N];
+    let mut i = 0;
+    for k in s.iter() { if i < N { items[i] = *k; } i += 1; }
+    let sn = sd.n;
+    let mut sd2 = Model::<M>::new();
+    let mut i = 0;
+    while i < N { if i < sn { sd2.insert(sd.keys[i], 0, 0, 0); } i += 1; }
+    if in_place {
+        let (mut place, _) = any_u8_set::<M>();
+        let de = SeqDeserializer::<_, VErr>::new(items[..sn].iter().copied());
+        let r = Set::<u8, M>::deserialize_in_place(de, &mut place);
+        vf::check(r.is_ok(), 2004);
+        vf::check(place == s, 2003);
+        same_u8_set(&place, &sd2);
+    } else {
+        let de = SeqDeserializer::<_, VErr>::new(items[..sn].iter().copied());
+        match Set::<u8, M>::deserialize(de) { Ok(d) => { vf::check(d == s, 2003); same_u8_set(&d, &sd2); } Err(_) => vf::check(false, 2004) }
+    }
+}
+
 harnesses! {
+    c20_value_de: [1, 1] [2, 2] [2, 3] [3, 3];
     c20_bincode_map: [0, 0] [1, 1] [2, 2] [3, 3] [2, 3] [1, 3];
     c20_bincode_set: [0, 0] [1, 1] [2, 2] [3, 3] [2, 3] [1, 3];
     @deep
